@@ -10,17 +10,49 @@ import (
 	"github.com/Trisia/randomness"
 )
 
+// sampleReader 多个worker共享的样本读取器，记录首个读取错误
+type sampleReader struct {
+	mu     sync.Mutex
+	source io.Reader
+	err    error // 首个读取错误
+}
+
+// read 读取一个样本；出现过错误后不再读取
+func (r *sampleReader) read(buf []byte) error {
+	if err := r.firstErr(); err != nil {
+		return err
+	}
+	_, err := r.source.Read(buf)
+	if err != nil {
+		r.mu.Lock()
+		if r.err == nil {
+			r.err = err
+		}
+		r.mu.Unlock()
+	}
+	return err
+}
+
+// firstErr 返回读取过程中出现的首个错误
+func (r *sampleReader) firstErr() error {
+	r.mu.Lock()
+	defer r.mu.Unlock()
+	return r.err
+}
+
 // 工作器
 // jobs: 启动参数
 // source: 随机源
 // n: 读取字节数
 // round: 检测方式
 // counter: 结果集统计
-func worker(jobs chan int, source io.Reader, n int, round func([]byte) []*randomness.TestResult, counter []int32, distributions [][]float64, wait *sync.WaitGroup) {
+func worker(jobs chan int, source *sampleReader, n int, round func([]byte) []*randomness.TestResult, counter []int32, distributions [][]float64, wait *sync.WaitGroup) {
 	buf := make([]byte, n, n*2)
 	for i := range jobs {
-		_, err := source.Read(buf)
+		err := source.read(buf)
 		if err != nil {
+			// 读取失败也必须通知完成，否则调用方将永久阻塞
+			wait.Done()
 			continue
 		}
 		resArr := round(buf)
@@ -35,14 +67,15 @@ func worker(jobs chan int, source io.Reader, n int, round func([]byte) []*random
 }
 
 // 根据处理器情况启动worker
-// return 控制命令管道, 结束型号器
-func bootWorker(source io.Reader, n int, round func([]byte) []*randomness.TestResult, counter []int32, distributions [][]float64) (chan int, *sync.WaitGroup) {
+// return 控制命令管道, 结束型号器, 样本读取器
+func bootWorker(source io.Reader, n int, round func([]byte) []*randomness.TestResult, counter []int32, distributions [][]float64) (chan int, *sync.WaitGroup, *sampleReader) {
 	var wait sync.WaitGroup
 	jobs := make(chan int)
+	reader := &sampleReader{source: source}
 	for i := 0; i < runtime.NumCPU(); i++ {
-		go worker(jobs, source, n, round, counter, distributions, &wait)
+		go worker(jobs, reader, n, round, counter, distributions, &wait)
 	}
-	return jobs, &wait
+	return jobs, &wait, reader
 }
 
 // FactoryDetectFast 出厂检测，15种检测，每组 10^6比特，分50组
@@ -53,13 +86,16 @@ func FactoryDetectFast(source io.Reader) (bool, error) {
 	n := 1000000 / 8
 	counters := make([]int32, 15)
 	distributions := createDistributions(s, 15)
-	jobs, wg := bootWorker(source, n, Round15, counters, distributions)
+	jobs, wg, reader := bootWorker(source, n, Round15, counters, distributions)
 	wg.Add(s)
 	defer close(jobs)
 	for i := 0; i < s; i++ {
 		jobs <- i
 	}
 	wg.Wait()
+	if err := reader.firstErr(); err != nil {
+		return false, err
+	}
 	fmt.Println(counters)
 	for i, itemCnt := range counters {
 		if int(itemCnt) < t {
@@ -83,13 +119,16 @@ func PowerOnDetectFast(source io.Reader) (bool, error) {
 	n := 1000000 / 8
 	counters := make([]int32, 15)
 	distributions := createDistributions(s, 15)
-	jobs, wg := bootWorker(source, n, Round15, counters, distributions)
+	jobs, wg, reader := bootWorker(source, n, Round15, counters, distributions)
 	wg.Add(s)
 	defer close(jobs)
 	for i := 0; i < s; i++ {
 		jobs <- i
 	}
 	wg.Wait()
+	if err := reader.firstErr(); err != nil {
+		return false, err
+	}
 	fmt.Println(counters)
 
 	for i, itemCnt := range counters {
@@ -115,13 +154,16 @@ func PeriodDetectFast(source io.Reader) (bool, error) {
 	n := 20000 / 8
 	counters := make([]int32, 12)
 	distributions := createDistributions(s, 12)
-	jobs, wg := bootWorker(source, n, Round12, counters, distributions)
+	jobs, wg, reader := bootWorker(source, n, Round12, counters, distributions)
 	wg.Add(s)
 	defer close(jobs)
 	for i := 0; i < s; i++ {
 		jobs <- i
 	}
 	wg.Wait()
+	if err := reader.firstErr(); err != nil {
+		return false, err
+	}
 	fmt.Println(counters)
 	for i, itemCnt := range counters {
 		if int(itemCnt) < t {
